@@ -101,6 +101,21 @@ type c14entry struct {
 
 // Every case is ONE line: the capture and the call share the source line.
 func c14entries() []c14entry {
+	ents := c14entriesDefault()
+	if workerVerboseBuild {
+		// the build with -tags verbose: the Verbose family emits records (at Trace level) and is an entry point like the others.
+		// Only these are evaluated in that build: the library traces its own work through Verbose there, so the other entry
+		// points come with extra records that are no business of this property.
+		ents = append(ents[:0:0],
+			c14entry{"Verbose (build with -tags verbose)", "native", func(e *c14env) (s c14site) { e.l.Verbose(mark(&s), "k", 1); return }},
+			c14entry{"VerboseContext (build with -tags verbose)", "native", func(e *c14env) (s c14site) { e.l.VerboseContext(e.ctx, mark(&s), "k", 1); return }},
+			c14entry{"slog.Verbose (build with -tags verbose)", "package", func(e *c14env) (s c14site) { slog.Verbose(mark(&s), "k", 1); return }},
+			c14entry{"slog.VerboseContext (build with -tags verbose)", "package", func(e *c14env) (s c14site) { slog.VerboseContext(e.ctx, mark(&s), "k", 1); return }})
+	}
+	return ents
+}
+
+func c14entriesDefault() []c14entry {
 	return []c14entry{
 		{"Info", "native", func(e *c14env) (s c14site) { e.l.Info(mark(&s), "k", 1); return }},
 		{"Error with a stack-carrying error attribute (created elsewhere)", "native", func(e *c14env) (s c14site) { e.l.Error(mark(&s), "err", c14v3err, "k", 1); return }},
@@ -676,6 +691,9 @@ func init() {
 					}
 				}
 				for _, wcase := range c14wrappers() {
+					if workerVerboseBuild {
+						break
+					}
 					for _, via := range []string{"WithSkip", "SetSkip"} {
 						emit(c14case{Entry: wcase.name, Format: f, Logger: lg, Skip: wcase.n, SkipVia: via})
 					}
